@@ -339,7 +339,7 @@ def _dump(run, name, **c):
 def _replay(run, kind, name, gpath, nshards, edges, pairs, walks, walklen, budget):
     def one(shard):
         cmd = [run.binary, "replay", kind, gpath, str(shard), str(nshards), "edges" if edges else "-",
-               "pairs" if pairs else "-", str(walks), str(walklen), str(budget)]
+               pairs if pairs else "-", str(walks), str(walklen), str(budget)]
         return run_cmd(cmd, timeout=3000)
 
     with ThreadPoolExecutor(max_workers=nshards) as ex:
@@ -439,7 +439,8 @@ def run(tier):
         # as coded: TLC refutes (design findings), counterexamples go to the real class
         ("lpa-as-coded", "ds/LPAstar", _lpa_cfg("lpa-as-coded", True, True, invs="RefinesContract", **lpa_small), "finding", "lpa"),
         ("lpa-erase-as-coded", "ds/LPAstar", _lpa_cfg("lpa-erase-as-coded", True, False, invs="RefinesContract", **lpa_small), "finding", "lpa"),
-        ("lpa-erase-endless", "ds/LPAstar", _lpa_cfg("lpa-erase-endless", True, False, invs="Terminates", **lpa_small), "finding", "lpa"),
+        ("lpa-endless-as-coded", "ds/LPAstar", _lpa_cfg("lpa-endless-as-coded", True, True, invs="Terminates",
+                                                         **dict(lpa_small, n=4, tgt=3, maxe=8)), "finding", "lpa"),
         ("lpa-erase-invariant", "ds/LPAstar", _lpa_cfg("lpa-erase-invariant", True, False, invs="QueueIsInconsistentSet", **lpa_small), "finding", None),
         ("lpad-as-coded", "ds/LPAstar", _lpa_cfg("lpad-as-coded", True, True, invs="RefinesContract", **lpad_small), "finding", "lpad"),
         # repaired: must refine, with all the LPA* invariants
@@ -468,24 +469,24 @@ def run(tier):
         ]
     # ---- 3. state graphs to replay
     if quick:
-        dumps = [("dump-sssp-4", dict(kind="sssp", n=4, w=(1, 2, 4), maxe=3), dict(edges=True, pairs=False, walks=3000, walklen=40, budget=0)),
-                 ("dump-sssp-3", dict(kind="sssp", n=3, w=(1, 2, 4), maxe=6), dict(edges=True, pairs=True, walks=2000, walklen=30, budget=60000)),
-                 ("dump-lpa-4h", dict(kind="lpa", n=4, w=(1, 2, 3), maxe=12, src=0, tgt=3, hsel=1, tiefree=False), dict(edges=True, pairs=True, walks=4000, walklen=40, budget=0)),
-                 ("dump-lpa-3", dict(kind="lpa", n=3, w=(1, 2), maxe=6, src=0, tgt=2, hsel=0, tiefree=False), dict(edges=True, pairs=True, walks=2000, walklen=30, budget=100000)),
-                 ("dump-lpad-3", dict(kind="lpad", n=3, w=(1, 2), maxe=6, src=0, tgt=2, hsel=0, tiefree=False), dict(edges=True, pairs=True, walks=2000, walklen=30, budget=60000)),
-                 ("dump-adj-3", dict(kind="adj", n=3, w=(0, 1, 2), maxe=6, tiefree=False), dict(edges=True, pairs=True, walks=2000, walklen=30, budget=30000))]
+        dumps = [("dump-sssp-4", dict(kind="sssp", n=4, w=(1, 2, 4), maxe=3), dict(edges=True, pairs=None, walks=2000, walklen=40, budget=0)),
+                 ("dump-sssp-3", dict(kind="sssp", n=3, w=(1, 2, 4), maxe=6), dict(edges=True, pairs="pairs2", walks=2000, walklen=30, budget=40000)),
+                 ("dump-lpa-4h", dict(kind="lpa", n=4, w=(1, 2, 3), maxe=12, src=0, tgt=3, hsel=1, tiefree=False), dict(edges=True, pairs="pairs2", walks=4000, walklen=40, budget=0)),
+                 ("dump-lpa-3", dict(kind="lpa", n=3, w=(1, 2), maxe=6, src=0, tgt=2, hsel=0, tiefree=False), dict(edges=True, pairs="pairs", walks=2000, walklen=30, budget=100000)),
+                 ("dump-lpad-3", dict(kind="lpad", n=3, w=(1, 2), maxe=6, src=0, tgt=2, hsel=0, tiefree=False), dict(edges=True, pairs="pairs", walks=2000, walklen=30, budget=40000)),
+                 ("dump-adj-3", dict(kind="adj", n=3, w=(0, 1, 2), maxe=6, tiefree=False), dict(edges=True, pairs="pairs2", walks=1500, walklen=30, budget=20000))]
         rec = [("sssp", 12, 250, 12), ("lpa", 12, 250, 12), ("lpad", 8, 200, 10), ("adj", 8, 200, 10)]
     else:
-        dumps = [("dump-sssp-4", dict(kind="sssp", n=4, w=(1, 2, 4), maxe=4), dict(edges=True, pairs=False, walks=20000, walklen=60, budget=0)),
-                 ("dump-sssp-3", dict(kind="sssp", n=3, w=(1, 2, 4, 8), maxe=6), dict(edges=True, pairs=True, walks=10000, walklen=40, budget=1000000)),
-                 ("dump-lpa-4h", dict(kind="lpa", n=4, w=(1, 2, 3), maxe=12, src=0, tgt=3, hsel=1, tiefree=False), dict(edges=True, pairs=True, walks=30000, walklen=60, budget=300000)),
-                 ("dump-lpa-4", dict(kind="lpa", n=4, w=(1, 2), maxe=12, src=0, tgt=3, hsel=0, tiefree=False), dict(edges=True, pairs=True, walks=30000, walklen=60, budget=300000)),
-                 ("dump-lpa-4far", dict(kind="lpa", n=4, w=(1, 2), maxe=12, src=0, tgt=1, hsel=2, tiefree=False), dict(edges=True, pairs=True, walks=30000, walklen=60, budget=0)),
-                 ("dump-lpa-3", dict(kind="lpa", n=3, w=(1, 2, 3), maxe=6, src=0, tgt=2, hsel=0, tiefree=False), dict(edges=True, pairs=True, walks=10000, walklen=40, budget=2000000)),
-                 ("dump-lpad-3", dict(kind="lpad", n=3, w=(1, 2), maxe=6, src=0, tgt=2, hsel=0, tiefree=False), dict(edges=True, pairs=True, walks=10000, walklen=40, budget=1000000)),
-                 ("dump-lpad-4", dict(kind="lpad", n=4, w=(1, 2), maxe=5, src=0, tgt=3, hsel=0, tiefree=False), dict(edges=True, pairs=False, walks=30000, walklen=60, budget=0)),
-                 ("dump-adj-4", dict(kind="adj", n=4, w=(0, 1, 2), maxe=8, tiefree=False), dict(edges=True, pairs=False, walks=20000, walklen=60, budget=0)),
-                 ("dump-adj-3", dict(kind="adj", n=3, w=(0, 1, 2), maxe=6, tiefree=False), dict(edges=True, pairs=True, walks=5000, walklen=40, budget=500000))]
+        dumps = [("dump-sssp-4", dict(kind="sssp", n=4, w=(1, 2, 4), maxe=4), dict(edges=True, pairs=None, walks=20000, walklen=60, budget=0)),
+                 ("dump-sssp-3", dict(kind="sssp", n=3, w=(1, 2, 4, 8), maxe=6), dict(edges=True, pairs="pairs", walks=10000, walklen=40, budget=1000000)),
+                 ("dump-lpa-4h", dict(kind="lpa", n=4, w=(1, 2, 3), maxe=12, src=0, tgt=3, hsel=1, tiefree=False), dict(edges=True, pairs="pairs", walks=30000, walklen=60, budget=300000)),
+                 ("dump-lpa-4", dict(kind="lpa", n=4, w=(1, 2), maxe=12, src=0, tgt=3, hsel=0, tiefree=False), dict(edges=True, pairs="pairs", walks=30000, walklen=60, budget=300000)),
+                 ("dump-lpa-4far", dict(kind="lpa", n=4, w=(1, 2), maxe=12, src=0, tgt=1, hsel=2, tiefree=False), dict(edges=True, pairs="pairs", walks=30000, walklen=60, budget=0)),
+                 ("dump-lpa-3", dict(kind="lpa", n=3, w=(1, 2, 3), maxe=6, src=0, tgt=2, hsel=0, tiefree=False), dict(edges=True, pairs="pairs", walks=10000, walklen=40, budget=2000000)),
+                 ("dump-lpad-3", dict(kind="lpad", n=3, w=(1, 2), maxe=6, src=0, tgt=2, hsel=0, tiefree=False), dict(edges=True, pairs="pairs", walks=10000, walklen=40, budget=1000000)),
+                 ("dump-lpad-4", dict(kind="lpad", n=4, w=(1, 2), maxe=5, src=0, tgt=3, hsel=0, tiefree=False), dict(edges=True, pairs=None, walks=30000, walklen=60, budget=0)),
+                 ("dump-adj-4", dict(kind="adj", n=4, w=(0, 1, 2), maxe=8, tiefree=False), dict(edges=True, pairs=None, walks=20000, walklen=60, budget=0)),
+                 ("dump-adj-3", dict(kind="adj", n=3, w=(0, 1, 2), maxe=6, tiefree=False), dict(edges=True, pairs="pairs", walks=5000, walklen=40, budget=500000))]
         rec = [("sssp", 60, 300, 12), ("lpa", 60, 300, 12), ("lpad", 40, 300, 12), ("adj", 40, 300, 12),
                ("sssp", 60, 300, 12), ("lpa", 60, 300, 12)]
 
@@ -514,12 +515,18 @@ def run(tier):
 
     # ---- real class: TLC's counterexamples, the state graphs, recorded histories
     _confirm_on_real(run)
-    nsh = max(1, min(ncpu, 8))
-    for name, c, how in dumps:
+    nsh = max(1, min(8, ncpu // 3))
+
+    def do_replay(item):
+        name, c, how = item
         gpath, nedges = dump_out[name]
         _replay(run, c["kind"], name, gpath, nsh, how["edges"], how["pairs"], how["walks"], how["walklen"], how["budget"])
-    with ThreadPoolExecutor(max_workers=max(1, min(ncpu, len(rec)))) as ex:
-        list(ex.map(lambda a: _record(run, a[1][0], a[1][1], a[1][2], a[1][3], a[0]), enumerate(rec)))
+
+    with ThreadPoolExecutor(max_workers=3) as ex:
+        futs = [ex.submit(do_replay, d) for d in dumps]
+        futs += [ex.submit(_record, run, a[0], a[1], a[2], a[3], i) for i, a in enumerate(rec)]
+        for f in futs:
+            f.result()
 
     # ---- vacuity gates
     for k, v in run.metrics.items():
